@@ -36,7 +36,7 @@ func (Engine) Plan(prop, tier string) kernel.Plan {
 		"C04/quick": 1500, "C04/thorough": 200000,
 		"C08/quick": 2000, "C08/thorough": 200000,
 		"C07/quick": 2000, "C07/thorough": 200000,
-		"C12/quick": 2000, "C12/thorough": 200000,
+		"C12/quick": 5000, "C12/thorough": 400000,
 	}[prop+"/"+tier]
 	return kernel.Plan{Runs: runs, Pin: true, CrashProne: true}
 }
